@@ -226,6 +226,7 @@ class NodeVal(SymVal):
             return Contract(lambda it, *names: all(self.props.get(n) is not None for n in names), 'Node.has')
         raise Outside(f'Node.{name}')
     def sym_iter(self, it): return list(self.props.keys())
+    def sym_mapping(self, it): return {str(getattr(k, 'value', k)): v for k, v in self.props.items()}     # **node: a node is a Mapping of its properties
     def sym_getattr_keys(self): return list(self.props)
     def sym_isinstance(self, it, cls):
         return issubclass(self.cls, cls)
